@@ -33,6 +33,22 @@ MUTATING = ('rebind', 'sym_rebind', 'use_spec', 'set_metadata', 'set_userdata', 
             'insert', 'pop', 'remove', 'clear', 'sort', 'reverse', 'update', 'seal')
 
 
+GENERIC_CONTAINER_MUTATORS = ('append', 'extend', 'insert', 'pop', 'remove', 'clear', 'sort', 'reverse', 'update')
+
+
+def _aliases_dna_container(fn, name, derived):
+  """Is local `name` bound (somewhere) directly to `<derived>.children` /
+  `.metadata` / `.userdata` (an alias of a container that belongs to the
+  caller's DNA)?"""
+  for _, v in D.defs_of(fn, name):
+    if v is None:
+      continue
+    if isinstance(v, ast.Attribute) and v.attr in ('children', 'metadata', 'userdata') and (
+        A.names_read(v) & derived):
+      return True
+  return False
+
+
 def _derived_from(fn, roots):
   """Names transitively assigned from expressions that read `roots`."""
   derived = set(roots)
@@ -78,6 +94,16 @@ def rule_a(ctx):
           d = A.call_name(call) or ''
           parts = d.split('.')
           if len(parts) >= 2 and parts[-1] in MUTATING and parts[0] in derived:
+            # generic container mutators count only on a DNA's own children /
+            # metadata containers or on the parameter itself; a local list that
+            # merely was computed FROM the input (indices, decision points,
+            # results of helper calls) is not the caller's DNA
+            if parts[-1] in GENERIC_CONTAINER_MUTATORS:
+              owns = ('children' in parts[1:-1] or 'metadata' in parts[1:-1] or 'userdata' in parts[1:-1]
+                      or (len(parts) == 2 and parts[0] in params)
+                      or _aliases_dna_container(m.node, parts[0], derived))
+              if not owns:
+                continue
             # is the root still the caller's object here?
             root = parts[0]
             chain = [root]
